@@ -871,6 +871,33 @@ def register(E):
         lo = lambda b: z3.If(z3.And(z3.UGE(b, 65), z3.ULE(b, 90)), b + 32, b)
         return [(T, z3.And(x.ln == y.ln, *[z3.Implies(in_window(j, x), lo(x.at(j)) == lo(y.at(j))) for j in range(n)]))]
 
+    @model(r'^(?:std|core|alloc)::str::<impl str>::replace$')
+    def _(E, st, callee, a, m):
+        """str::replace(char, &str) on short texts of concrete length: one outcome per set of matching positions (the result
+        has a concrete shape: untouched bytes and copies of the replacement)"""
+        s = as_str(st, a[0]); frm = d(st, a[1]); to = as_str(st, a[2])
+        c = frm.conc() if isinstance(frm, I) else None
+        ln = z3.simplify(s.ln)
+        if c is None or c >= 0x80 or not z3.is_bv_value(ln) or ln.as_long() > 8:
+            raise Inconclusive('str::replace: symbolic / non-ASCII pattern or a text without a concrete short length')
+        n = ln.as_long()
+        import itertools as _it
+        outs = []
+        for mask in _it.product((False, True), repeat=n):
+            cond = z3.simplify(z3.And(*[(s.at(j) == c) if mk else (s.at(j) != c) for j, mk in enumerate(mask)])) if n else T
+            if z3.is_false(cond):
+                continue
+            parts, run = [], []
+            for j, mk in enumerate(mask):
+                if mk:
+                    if run: parts.append(sub(s, bv(run[0]), bv(len(run)))); run = []
+                    parts.append(to)
+                else:
+                    run.append(j)
+            if run: parts.append(sub(s, bv(run[0]), bv(len(run))))
+            outs.append((cond, Obj('String', concat(E, parts) if parts else E.const_str(b''))))
+        return outs
+
     @model(r'^core::str::<impl str>::parse$')
     def _(E, st, callee, a, m):
         # `s.parse::<T>()` is `<T as FromStr>::from_str(s)`
